@@ -101,7 +101,7 @@ BinaryEntropy_Def(N, xs) ==
 (* changes d_i = x_i - x_{i-1} (d_1 = 0) for i = t-n+1 .. t, n = min(t, N) *)
 Changes(N, xs) ==
     LET t == Len(xs) n == IF t < N THEN t ELSE N IN
-    [j \in 1..n |-> LET i == t - n + j IN IF i = 1 THEN QZero ELSE QSub(xs[i], xs[i - 1])]
+    Force([j \in 1..n |-> LET i == t - n + j IN IF i = 1 THEN QZero ELSE QSub(xs[i], xs[i - 1])])
 PosPart(q) == IF QSign(q) > 0 THEN q ELSE QZero
 NegPart(q) == IF QSign(q) < 0 THEN QNeg(q) ELSE QZero
 Gains(d)  == QSum([i \in 1..Len(d) |-> PosPart(d[i])])
@@ -203,9 +203,9 @@ AlmaExpo(N, k, sigma, offset) ==
         s == QDiv(QInt(N), sigma)
     IN  QDiv(QSq(QSub(QInt(k - 1), m)), QMul(Two, QSq(s)))
 AlmaWeights(N, sigma, offset) ==
-    LET es == [k \in 1..N |-> AlmaExpo(N, k, sigma, offset)]
+    LET es == Force([k \in 1..N |-> AlmaExpo(N, k, sigma, offset)])
         e0 == QMinSeq(es)
-    IN  [k \in 1..N |-> FExp(FFromQ(QSub(e0, es[k])))]
+    IN  Force([k \in 1..N |-> FExp(FFromQ(QSub(e0, es[k])))])
 RECURSIVE FDotFrom(_, _, _)
 FDotFrom(ws, w, i) == IF i > Len(ws) THEN FZero ELSE FAdd(FMul(ws[i], FFromQ(w[i])), FDotFrom(ws, w, i + 1))
 RECURSIVE FSumFrom(_, _)
